@@ -164,3 +164,34 @@ package regclient
 //@   in ~
 //@   infunc imageCopy
 //@   requires once-per-digest-gate: $gateHeld
+
+// ---- C08: an image copy holds the target's GC lock for its whole duration ----
+// Ghost $gcLocks counts GCLock minus GCUnlock calls made through the scheme.GCLocker interface
+// (the ocidir implementation of the pair is under its own contract in scheme/ocidir).
+//@ ghost $gcLocks int
+//@ extern (~/scheme.GCLocker).GCLock(r)
+//@   effect $gcLocks = $gcLocks + 1
+//@ extern (~/scheme.GCLocker).GCUnlock(r)
+//@   effect $gcLocks = $gcLocks - 1
+//@ func (*RegClient).ImageCopy(ctx, refSrc, refTgt, opts) (err)
+//@   prop C08
+//@   entry-assume $gcLocks == 0
+//@   loop 0 (optFn)
+//@     invariant no-lock-yet: $gcLocks == 0
+//@   loop 1 (fn)
+//@     invariant still-locked: isGCLocker ==> $gcLocks == 1
+//@     invariant not-lockable: !isGCLocker ==> $gcLocks == 0
+//@   ensures lock-released: $gcLocks == 0
+//@ callsite (*RegClient).imageCopyOpt(ctx, refSrc, refTgt, d, child, parents, opt)
+//@   prop C08
+//@   name imageCopyOpt/ImageCopy
+//@   in ~
+//@   infunc \)\.ImageCopy$
+//@   requires target-gc-locked: caller.isGCLocker ==> $gcLocks == 1
+//@   requires same-target: refTgt == caller.refTgt
+//@ callsite var:fn(c)
+//@   prop C08
+//@   name finalFn/ImageCopy
+//@   in ~
+//@   infunc \)\.ImageCopy$
+//@   requires target-gc-locked: caller.isGCLocker ==> $gcLocks == 1
